@@ -9,12 +9,12 @@ from collections import namedtuple
 
 from ural.ensure_protocol import ensure_protocol
 from ural.utils import pathsplit, urlsplit, urlunsplit, safe_urlsplit, SplitResult
-from ural.patterns import DOMAIN_TEMPLATE
+from ural.patterns import DOMAIN_TEMPLATE, SUBDOMAINS
 
 TELEGRAM_MESSAGE_ID_RE = re.compile(r"^\d+$")
-TELEGRAM_DOMAINS_RE = re.compile(r"(?:telegram\.(?:org|me)|t\.me)$", re.I)
+TELEGRAM_DOMAINS_RE = re.compile(r"(?:^|\.)(?:telegram\.(?:org|me)|t\.me)\.?$", re.I)
 TELEGRAM_URL_RE = re.compile(
-    DOMAIN_TEMPLATE % r"(?:[^.]+\.)*(?:telegram\.(?:org|me)|t\.me)", re.I
+    DOMAIN_TEMPLATE % (SUBDOMAINS + r"(?:telegram\.(?:org|me)|t\.me)"), re.I
 )
 TELEGRAM_PUBLIC_REPLACE_RE = re.compile(
     r"^(?:[^.]+\.)?(?:telegram\.(?:org|me)|t\.me)", re.I
